@@ -37,6 +37,23 @@ HARNESSES = {
 }
 
 
+Q = "quantity::verif_kani::"
+TABLE = "quantity::FractionLookupTable::new -> literal table dumped natively from the real constructor"
+HARNESSES["C12"] = [
+    dict(name=Q + "c12_lookup_contract", tier="quick", kernel="quantity::FractionLookupTable::lookup",
+         bound="val in [1e-10,1), max_den in 0..=64, table = the real constructor's output, unwind 40", budget_s=300,
+         obligation="Some((n,d)) => 1 <= n < d <= max_den and d is a documented denominator; no out-of-bounds index"),
+    dict(name=Q + "c12_new_approx_structure", tier="quick", kernel="quantity::Number::new_approx", stubs=[TABLE],
+         bound="every f64 (finite or not), every f32 accuracy in [0,1], max_den 0..=64, every u32 max_whole", budget_s=300,
+         obligation="declines non-positive/non-finite; Regular(x) => x == value; Fraction => whole<=max_whole, "
+                    "num==0 => den==1 & whole>=1, num>0 => num<den<=max_den & den documented; integers within the limit => Regular"),
+    dict(name=Q + "c12_new_approx_twin_reach", tier="quick", kernel="quantity::Number::new_approx", stubs=[TABLE], twin=True,
+         bound="value in (0.3,0.35)", budget_s=300, obligation="vacuity twin: a Fraction with num>0 is reachable"),
+    dict(name=Q + "c12_new_approx_bad_max_den_panics", tier="quick", kernel="quantity::Number::new_approx", stubs=[TABLE],
+         bound="max_den in 65..=255, any value", budget_s=300, obligation="documented panic (should_panic harness)"),
+]
+
+
 def select(prop, tier):
     out = []
     for e in HARNESSES.get(prop, []):
